@@ -522,6 +522,28 @@ example : ∃ c, Pipeline.parseProgram {} exBad = .ok c ∧ UnitTiming.anyLoopIn
   rintro ⟨c', hc'⟩
   rw [he] at hc'; cases hc'
 
+/-- `exTxt` through `expand_macros ; fill_in_let` (the macro call inside the parallel block is replaced by the macro's body, the let
+count by `2`), then the unit-timing pass: 16 gate instances -/
+theorem ex_passes : chk (Pipeline.parseProgram {} exTxt) (fun c =>
+    chk (Passes.applySeq [.macros false, .let_ []] c) (fun c1 =>
+      c1.macros.isEmpty && countsOK c1.body && !badNatives c1 &&
+      chk (normalizeCircuit c1) (fun c' => decide ((UnitTiming.timesSeq 0 (skelBody exL c')).length = 16)))) = true := by
+  decide +kernel
+
+/-- the `_passes` theorems apply to it, non-trivially -/
+example : ∃ c c1 c', Pipeline.parseProgram {} exTxt = .ok c ∧ Passes.applySeq [.macros false, .let_ []] c = .ok c1 ∧
+    normalizeCircuit c1 = .ok c' ∧ WF c1 ∧ (UnitTiming.timesSeq 0 (skelBody exL c')).length = 16 ∧
+    (UnitTiming.timesSeq 0 (skelBody exL c')).Perm (UnitTiming.timesSeq 0 (skelBody exL c1)) ∧
+    normalizeCircuit c' = .ok c' ∧
+    (UnitTiming.anyLoopInPar false (skelBody exL c1) = false ∧ UnitTiming.anySubInPar false (skelBody exL c1) = false) := by
+  obtain ⟨c, hc, h⟩ := chk_ok ex_passes
+  obtain ⟨c1, hc1, h1⟩ := chk_ok h
+  simp only [Bool.and_eq_true] at h1
+  obtain ⟨c', hc', h2⟩ := chk_ok h1.2
+  simp only [decide_eq_true_eq] at h2
+  exact ⟨c, c1, c', hc, hc1, hc', C19_wf_passes _ importsOK_default hc hc1, h2, C19_schedule_passes _ exL hc hc1 hc' 0,
+    C19_idempotent_passes _ hc hc1 hc', (C19_ok_iff_passes exL _ importsOK_default hc hc1).1 ⟨c', hc'⟩⟩
+
 /-- a pulse module whose `ALL_GATES` holds a macro (only possible with `autoload_pulses`) -/
 def cfgMacroImport : Config :=
   { autoload := true,
@@ -628,5 +650,7 @@ open Jaqal.UnitTimingCircuit in
 #print axioms C19_ok_iff_passes
 open Jaqal.UnitTimingCircuit in
 #print axioms C19_fails_only_passes
+open Jaqal.UnitTimingCircuit in
+#print axioms ex_passes
 open Jaqal.UnitTimingCircuit in
 #print axioms ex_import_macro
